@@ -19,8 +19,8 @@ ASSUMPTIONS = ["reference ed25519 and canonical serializer"]
 
 
 def plan(tier, seed):
-    n = 360 if tier == "quick" else 9000
-    shards = 8 if tier == "quick" else 16
+    n = 1600 if tier == "quick" else 40000
+    shards = 12 if tier == "quick" else 32
     return [{"kind": "sign", "count": n // shards} for _ in range(shards)]
 
 
